@@ -106,7 +106,7 @@ func (w *walker) walk(v ssa.Value, depth int, cut bool) {
 				default:
 					// pass-through wrapper: a module function returning (something derived from) its parameter i
 					if sc := cc.StaticCallee(); sc != nil && sc.Blocks != nil && i < len(sc.Params) {
-						pn := "param:" + sc.Params[i].Name()
+						pn := prov.Of(sc.Params[i])
 						through := false
 						for _, b := range sc.Blocks {
 							if r, ok := b.Instrs[len(b.Instrs)-1].(*ssa.Return); ok {
